@@ -40,6 +40,28 @@ func init() {
 			}
 			return nil
 		},
+		"sync/atomic.LoadInt32":  func(ex *Exec, fn *ssa.Function, a []Value, fr *Frame) Value { return ex.load(a[0].(*Pointer)) },
+		"sync/atomic.LoadInt64":  func(ex *Exec, fn *ssa.Function, a []Value, fr *Frame) Value { return ex.load(a[0].(*Pointer)) },
+		"sync/atomic.LoadUint32": func(ex *Exec, fn *ssa.Function, a []Value, fr *Frame) Value { return ex.load(a[0].(*Pointer)) },
+		"sync/atomic.LoadUint64": func(ex *Exec, fn *ssa.Function, a []Value, fr *Frame) Value { return ex.load(a[0].(*Pointer)) },
+		"sync/atomic.StoreInt32": func(ex *Exec, fn *ssa.Function, a []Value, fr *Frame) Value { ex.store(a[0].(*Pointer), a[1]); return nil },
+		"sync/atomic.StoreInt64": func(ex *Exec, fn *ssa.Function, a []Value, fr *Frame) Value { ex.store(a[0].(*Pointer), a[1]); return nil },
+		"sync/atomic.StoreUint32": func(ex *Exec, fn *ssa.Function, a []Value, fr *Frame) Value { ex.store(a[0].(*Pointer), a[1]); return nil },
+		"sync/atomic.AddInt32": func(ex *Exec, fn *ssa.Function, a []Value, fr *Frame) Value {
+			n := ex.tb.Add(ex.load(a[0].(*Pointer)).(*Term), a[1].(*Term))
+			ex.store(a[0].(*Pointer), n)
+			return n
+		},
+		"sync/atomic.AddUint32": func(ex *Exec, fn *ssa.Function, a []Value, fr *Frame) Value {
+			n := ex.tb.Add(ex.load(a[0].(*Pointer)).(*Term), a[1].(*Term))
+			ex.store(a[0].(*Pointer), n)
+			return n
+		},
+		"sync/atomic.AddInt64": func(ex *Exec, fn *ssa.Function, a []Value, fr *Frame) Value {
+			n := ex.tb.Add(ex.load(a[0].(*Pointer)).(*Term), a[1].(*Term))
+			ex.store(a[0].(*Pointer), n)
+			return n
+		},
 		"errors.New": func(ex *Exec, fn *ssa.Function, a []Value, fr *Frame) Value {
 			s, _ := ex.goString(a[0].(*StringV))
 			return ex.newError(s)
